@@ -373,12 +373,16 @@ class APIClient:
             raise
 
     async def disconnect(self, force: bool = False) -> None:
-        if self._connection is None:
+        if (connection := self._connection) is None:
             return
         if force:
-            self._connection.force_disconnect()
+            connection.force_disconnect()
         else:
-            await self._connection.disconnect()
+            await connection.disconnect()
+        if self._connection is connection:
+            # on_stop is only called for connections that were fully
+            # established, make sure a closed connection is never kept
+            self._connection = None
 
     def _get_connection(self) -> APIConnection:
         connection = self._connection
